@@ -16,7 +16,7 @@ func init() {
 		Patterns: []string{"./pkg/router", "./pkg/upstream/cluster"},
 		Explanation: "Difference reasoning on the SSA of RouteRuleImplBase.ClusterName: the draw x comes from Intn(total) (0 <= x < total); the cumulative scan must be one of two exact idioms (subtract-then-test `x-w < 0`, or test-then-subtract `x < w`), for which the loop invariant x >= 0 holds on the continue edge and w >= 1 is implied on the return edge, so entry k owns exactly the draws cum(k-1) <= x < cum(k), a zero-weight entry is unreachable and storage order is irrelevant. " +
 			"(R2) the draw range is the sum of exactly the weights stored in the scanned map (one addition per inserted entry, same weight value, both results stored by the one constructor, no other writer). " +
-			"(R3) the EDF scheduler's deadline update has the shape deadline += 1/weight with currentTime advanced to the served deadline and a min-heap on (deadline, queuedTime) — necessary for the bounded-lag property, which itself (a numeric inequality over float deadlines) is not decided. (R3, stale) no statically known writer of edfEntry.deadline runs between the load of the served entry's deadline and the store that advances it. (R3, all hosts) the Range callback of EdfLoadBalancer.refresh calls the scheduler's Add unconditionally for every host. (R3, round 6) every comparison of elements[c+1] with elements[c] in the EDF heap is dominated by c+1 < N, N the heap's size field or a parameter every caller binds to it; hostWeightsAreEqual compares every host (true only on the loop's exit edge); WRR hostWeight is fixHostWeight(float64(item.Weight())); fixHostWeight is the identity between its bounds.",
+			"(R3) the EDF scheduler's deadline update has the shape deadline += 1/weight with currentTime advanced to the served deadline and a min-heap on (deadline, queuedTime) — necessary for the bounded-lag property, which itself (a numeric inequality over float deadlines) is not decided. (R3, stale) no statically known writer of edfEntry.deadline runs between the load of the served entry's deadline and the store that advances it. (R3, all hosts) the Range callback of EdfLoadBalancer.refresh calls the scheduler's Add unconditionally for every host. (R3, round 6) every comparison of elements[c+1] with elements[c] in the EDF heap is dominated by c+1 < N, N the heap's size field or a parameter every caller binds to it; hostWeightsAreEqual compares every host (true only on the loop's exit edge); WRR hostWeight is fixHostWeight(float64(item.Weight())); fixHostWeight is the identity between its bounds. (R3 slow-start) every weight*factor returned by the slow-start closure has a factor that is MinWeightPercent or compared not-below it on the arriving edge; helper functions and returned closures are followed.",
 		Run: runC06,
 	})
 }
@@ -25,6 +25,7 @@ func runC06(c *Ctx) {
 	defer c06AllHostsScheduled(c)
 	defer c06WeightsReachScheduler(c)
 	defer c06HeapChildren(c)
+	defer c06SlowStartFloor(c)
 	c.Rule("C06.R1", "cumulative-weight scan uses an exact idiom (strict comparison)", 4)
 	c.Rule("C06.R2", "draw range equals the sum of the scanned weights; single writer", 4)
 	c.Rule("C06.R3", "EDF deadline update shape: deadline += 1/weight from the current deadline, time advances to served deadline, min-heap order; every host scheduled", 7)
@@ -760,5 +761,212 @@ func c06HeapChildren(c *Ctx) {
 	}
 	if n < 1 {
 		c.Unresolved("C06.R3", "a smaller-child selection (elements[c+1] vs elements[c]) in the EDF heap")
+	}
+}
+
+// c06SlowStartFloor (R3): the slow-start factor never drives an effective weight to zero.
+// The EDF scheduler divides by the weight ("you need to ensure the return result of weightFunc is not equal to 0"): a
+// weight of 0 gives an infinite deadline and the host is never served again, even after its slow-start window ended.
+// slowStartHostWeightFunc multiplies the host weight by a factor in (0,1] that a registered mode computes; what keeps the
+// product positive is the floor MinWeightPercent. Clause: every value the slow-start weight closure returns is the plain
+// host weight, or the weight times a factor that is floored - it is MinWeightPercent itself, or known not to be below it
+// on the edge it arrives by; a factor computed by a helper (also a closure-returning one) is followed into the helper.
+func c06SlowStartFloor(c *Ctx) {
+	pkg := "pkg/upstream/cluster"
+	outer := c.F(pkg, "slowStartHostWeightFunc")
+	if outer == nil {
+		c.Unresolved("C06.R3", "slowStartHostWeightFunc")
+		return
+	}
+	isFloor := func(v ssa.Value) bool {
+		if _, f, _, ok := loadedField(v); ok && f == "MinWeightPercent" {
+			return true
+		}
+		if sf, ok := v.(*ssa.Field); ok {
+			if st := derefStruct(sf.X.Type()); st != nil && st.Field(sf.Field).Name() == "MinWeightPercent" {
+				return true
+			}
+		}
+		return false
+	}
+	// FreeVar -> bound value at the MakeClosure site
+	binding := func(fv *ssa.FreeVar) ssa.Value {
+		fn := fv.Parent()
+		idx := -1
+		for i, x := range fn.FreeVars {
+			if x == fv {
+				idx = i
+			}
+		}
+		var out ssa.Value
+		if p := fn.Parent(); p != nil && idx >= 0 {
+			forEachInstr(p, true, func(_ *ssa.Function, in ssa.Instruction) {
+				if mc, ok := in.(*ssa.MakeClosure); ok && mc.Fn == ssa.Value(fn) && idx < len(mc.Bindings) {
+					out = mc.Bindings[idx]
+				}
+			})
+		}
+		return out
+	}
+	var floorLike func(v ssa.Value, d int) bool
+	floorLike = func(v ssa.Value, d int) bool {
+		if d > 4 {
+			return false
+		}
+		if isFloor(v) {
+			return true
+		}
+		switch x := v.(type) {
+		case *ssa.FreeVar:
+			if b := binding(x); b != nil {
+				return floorLike(b, d+1)
+			}
+		case *ssa.UnOp:
+			if x.Op == token.MUL {
+				if fv, ok := x.X.(*ssa.FreeVar); ok {
+					// captured by reference: the variable's stores
+					if b := binding(fv); b != nil {
+						if al, isAl := b.(*ssa.Alloc); isAl {
+							for _, r := range refs(al) {
+								if st, isS := r.(*ssa.Store); isS && st.Addr == ssa.Value(al) && floorLike(st.Val, d+1) {
+									return true
+								}
+							}
+						}
+					}
+				}
+				if al, ok := x.X.(*ssa.Alloc); ok {
+					for _, r := range refs(al) {
+						if st, isS := r.(*ssa.Store); isS && st.Addr == ssa.Value(al) && floorLike(st.Val, d+1) {
+							return true
+						}
+					}
+				}
+			}
+		}
+		return false
+	}
+	notBelowFloorAt := func(v ssa.Value, b *ssa.BasicBlock) bool {
+		for _, g := range guardsAt(b) {
+			bo, ok := g.Cond.(*ssa.BinOp)
+			if !ok || bo.X != v || !floorLike(bo.Y, 0) {
+				continue
+			}
+			if (bo.Op == token.LSS && !g.True) || (bo.Op == token.GEQ && g.True) || (bo.Op == token.GTR && g.True) {
+				return true
+			}
+		}
+		return false
+	}
+	var floored func(fn *ssa.Function, v ssa.Value, b *ssa.BasicBlock, d int) (bool, string)
+	var closureFloored func(cl *ssa.Function, d int) (bool, string)
+	closureFloored = func(cl *ssa.Function, d int) (bool, string) {
+		for _, in := range instrsWhere(cl, isReturn) {
+			if ok, why := floored(cl, in.(*ssa.Return).Results[0], in.Block(), d+1); !ok {
+				return false, why
+			}
+		}
+		return true, ""
+	}
+	floored = func(fn *ssa.Function, v ssa.Value, b *ssa.BasicBlock, d int) (bool, string) {
+		if d > 6 {
+			return false, "too deep to follow"
+		}
+		if floorLike(v, 0) || notBelowFloorAt(v, b) {
+			return true, ""
+		}
+		switch x := v.(type) {
+		case *ssa.Phi:
+			for i, e := range x.Edges {
+				pred := x.Block().Preds[i]
+				okE, why := floored(fn, e, pred, d+1)
+				if !okE {
+					// the edge itself may carry the comparison
+					if ifi, isIf := pred.Instrs[len(pred.Instrs)-1].(*ssa.If); isIf {
+						if bo, isB := ifi.Cond.(*ssa.BinOp); isB && bo.X == e && floorLike(bo.Y, 0) {
+							taken := pred.Succs[0] == x.Block()
+							if (bo.Op == token.LSS && !taken) || (bo.Op == token.GEQ && taken) {
+								continue
+							}
+						}
+					}
+					return false, why
+				}
+			}
+			return true, ""
+		case *ssa.Call:
+			// a helper that computes the factor: follow it (static function, or a closure obtained from a static constructor)
+			if cal := x.Common().StaticCallee(); cal != nil && len(cal.Blocks) > 0 && cal.Pkg == outer.Pkg {
+				return closureFloored(cal, d)
+			}
+			src := x.Common().Value
+			if u, isU := src.(*ssa.UnOp); isU {
+				if fv, isFV := u.X.(*ssa.FreeVar); isFV {
+					if bnd := binding(fv); bnd != nil {
+						if al, isAl := bnd.(*ssa.Alloc); isAl {
+							for _, r := range refs(al) {
+								if st, isS := r.(*ssa.Store); isS && st.Addr == ssa.Value(al) {
+									src = st.Val
+								}
+							}
+						}
+					}
+				}
+			}
+			if fv, isFV := src.(*ssa.FreeVar); isFV {
+				if bnd := binding(fv); bnd != nil {
+					src = bnd
+				}
+			}
+			if mk, isCall := src.(*ssa.Call); isCall {
+				if ctor := mk.Common().StaticCallee(); ctor != nil && len(ctor.Blocks) > 0 {
+					n := 0
+					for _, in := range instrsWhere(ctor, isReturn) {
+						if mc, isMC := in.(*ssa.Return).Results[0].(*ssa.MakeClosure); isMC {
+							n++
+							if ok2, why := closureFloored(mc.Fn.(*ssa.Function), d); !ok2 {
+								return false, why + " (closure returned by " + ctor.Name() + ")"
+							}
+						} else if f2, isFn := in.(*ssa.Return).Results[0].(*ssa.Function); isFn && len(f2.Blocks) > 0 {
+							n++
+							if ok2, why := closureFloored(f2, d); !ok2 {
+								return false, why + " (function returned by " + ctor.Name() + ")"
+							}
+						} else {
+							return false, ctor.Name() + " returns a function the checker cannot follow"
+						}
+					}
+					if n > 0 {
+						return true, ""
+					}
+				}
+			}
+			return false, "the factor is computed by a call the checker cannot follow"
+		}
+		return false, "the factor " + v.Name() + " reaches the product without being compared with MinWeightPercent"
+	}
+	n := 0
+	for _, cl := range outer.AnonFuncs {
+		if cl.Signature.Results().Len() != 1 {
+			continue
+		}
+		for _, in := range instrsWhere(cl, isReturn) {
+			v := in.(*ssa.Return).Results[0]
+			bo, ok := v.(*ssa.BinOp)
+			if !ok || bo.Op != token.MUL {
+				continue // the plain host weight
+			}
+			n++
+			okX, whyX := floored(cl, bo.X, in.Block(), 0)
+			okY, whyY := floored(cl, bo.Y, in.Block(), 0)
+			why := whyY
+			if whyY == "" {
+				why = whyX
+			}
+			c.Check("C06.R3", fmt.Sprintf("%s:slow-start-factor-floored#%d", funcKey(outer), n), in.Pos(), okX || okY, "the factor is MinWeightPercent or not below it", "the slow-start weight closure can return weight * factor with a factor that was not floored by MinWeightPercent ("+why+"): a mode that answers 0 gives the host an effective weight of 0, its EDF deadline becomes infinite and the healthy host is never served again")
+		}
+	}
+	if n < 1 {
+		c.Unresolved("C06.R3", "the weight*factor return of the slow-start weight closure")
 	}
 }
